@@ -87,7 +87,7 @@ def run(ctx):
     astq, astx, runs = r[:n], r[n:2 * n], r[2 * n:]
     # ---- reference semantics vs the real evaluator on every program
     rs = ctx.model_batch([RC.refsem_line(a) if a and a.startswith("OK (astx 0") else "ping" for a in astx])
-    sem_cmp = sem_skip = 0
+    sem_cmp = sem_skip = sem_order = 0
     before = []
     for i, s in enumerate(srcs):
         before.append(RC.run_result(runs[i]))
@@ -100,9 +100,17 @@ def run(ctx):
             sem_skip += 1
             continue
         sem_cmp += 1
+        if m[0] == want and m[1] != out and sorted(m[1].split("\n")) == sorted(out.split("\n")):
+            # recorded model limit: RefSem evaluates the items of an argument list / list literal left to right,
+            # eval.rs evaluates them last-first (they are pushed on the pending stack in order). Programs in which
+            # two items of one list both print therefore print the same lines in another order. Same outcome and
+            # same multiset of lines: not counted as a disagreement (first thorough sweep).
+            sem_order += 1
+            continue
         if m[0] != want or m[1] != out:
             ctx.disagree("refsem_run", {"src": s}, {"outcome": m[0], "out": m[1]}, {"outcome": want, "out": out})
-    ctx.cov["refsem_vs_evaluator"] = {"compared": sem_cmp, "skipped": sem_skip}
+    ctx.cov["refsem_vs_evaluator"] = {"compared": sem_cmp, "skipped": sem_skip,
+                                      "same_lines_other_order_(argument_evaluation_order_model_limit)": sem_order}
     # ---- occurrences
     jobs = []
     trees = {}
